@@ -409,6 +409,51 @@ func genRL(r *common.Rand) string {
 	return fmt.Sprintf("rl %d %d %d 1000 %s", rate, burst, ttl, strings.Join(tl.evs, " "))
 }
 
+// AllowIP cut at its lock boundaries: calls that looked their bucket up (`lk`) and Take later (`tk`),
+// with whole calls and a clean-up pass in between — in particular a clean-up that drops the very
+// bucket the calls in flight are holding.  Everything after the ageing gap sits on one grid point and
+// the aged bucket is saturated, so no answer depends on clock jitter.
+func genRLSplit(r *common.Rand) string {
+	burst := 1 + r.Intn(3)
+	ttl := dur(r, 4, 7) // 90..150 ms
+	rate := 40          // Burst*1000 <= Rate*TTL, and Rate*(TTL+10ms) >= Burst*1000 + slack: saturated after the gap
+	ip := addrs[0]
+	tl := &tlb{t: tick}
+	for i := 0; i < 1+r.Intn(burst+1); i++ {
+		tl.add("a:%d", ip)
+	}
+	if r.Intn(3) == 0 { // calls in flight across the ageing gap
+		tl.add("lk:%d", ip)
+	}
+	held := len(tl.evs) - strings.Count(strings.Join(tl.evs, " "), ":a:")
+	tl.adv((ttl-10)/tick + 1)
+	k := 1 + r.Intn(burst+2)
+	for i := 0; i < k; i++ {
+		tl.add("lk:%d", ip)
+	}
+	held += k
+	switch r.Intn(3) {
+	case 0:
+		tl.add("c") // drops the bucket: every call in flight holds an orphan
+	case 1:
+		tl.add("a:%d", ip) // touches the bucket first: the clean-up keeps it
+		tl.add("c")
+	}
+	for held > 0 {
+		switch r.Intn(4) {
+		case 0:
+			tl.add("a:%d", ip)
+		default:
+			tl.add("tk:%d:%d", ip, r.Intn(held))
+			held--
+		}
+	}
+	for i := 0; i < burst+1; i++ {
+		tl.add("a:%d", ip)
+	}
+	return fmt.Sprintf("rl %d %d %d 1000 %s", rate, burst, ttl, strings.Join(tl.evs, " "))
+}
+
 // ---- handshake
 
 // Handshake time lines cannot pre-compute the bucket (whether AllowIP is reached depends on the
@@ -649,6 +694,7 @@ func generate(r *common.Rand, tier string) []job {
 		jobs = append(jobs, job{"", c, "ip-reload-exhaustive"})
 	}
 	add(220, "rl", genRL)
+	add(100, "rl-split", genRLSplit)
 	add(60, "bf-default-config", genBFDefault)
 	add(40, "rl-default-config", genRLDefault)
 	add(60, "hs-default-config", genHSDefault)
